@@ -262,23 +262,23 @@ package app
 //@   requires vals_nonnil [safety]: forall k string :: has(clusterState, k) ==> clusterState[k] != nil
 //@   loop 1 invariant cnt: len(masters) == cntAliveMasters(clusterState, visited)
 //@   loop 1 invariant elems: forall i int :: in_range(i, masters) ==> has(clusterState, masters[i]) && aliveMaster(clusterState, masters[i])
-//@   ensures C09.one [C09]: result1 == nil && result0 != "" ==> cntAliveMasters(clusterState, dom(clusterState)) == 1 && has(clusterState, result0) && aliveMaster(clusterState, result0)
-//@   ensures C09.many [C09]: cntAliveMasters(clusterState, dom(clusterState)) > 1 <==> (result1 != nil)
-//@   ensures C09.many_err [C09]: result1 != nil ==> errIs(result1, ErrManyMasters) && result0 == ""
-//@   ensures C09.none [C09]: cntAliveMasters(clusterState, dom(clusterState)) == 0 ==> result0 == "" && result1 == nil
+//@   ensures C09.one [C09,C10]: result1 == nil && result0 != "" ==> cntAliveMasters(clusterState, dom(clusterState)) == 1 && has(clusterState, result0) && aliveMaster(clusterState, result0)
+//@   ensures C09.many [C09,C10]: cntAliveMasters(clusterState, dom(clusterState)) > 1 <==> (result1 != nil)
+//@   ensures C09.many_err [C09,C10]: result1 != nil ==> errIs(result1, ErrManyMasters) && result0 == ""
+//@   ensures C09.none [C09,C10]: cntAliveMasters(clusterState, dom(clusterState)) == 0 ==> result0 == "" && result1 == nil
 //@   ensures C09.pure [C09]: tick == old(tick)
 
 //@ func (*app.App).ensureCurrentMaster
 //@   requires vals_nonnil [safety]: forall k string :: has(clusterState, k) ==> clusterState[k] != nil
-//@   ensures C09.ensure_ok [C09]: result1 == nil ==> cntAliveMasters(clusterState, dom(clusterState)) == 1 && has(clusterState, result0) && aliveMaster(clusterState, result0) && d_master == result0 && e_SetMaster == old(e_SetMaster) + 1
-//@   ensures C09.ensure_many [C09]: cntAliveMasters(clusterState, dom(clusterState)) > 1 ==> result1 != nil && errIs(result1, ErrManyMasters) && e_SetMaster == old(e_SetMaster)
-//@   ensures C09.ensure_none [C09]: cntAliveMasters(clusterState, dom(clusterState)) == 0 ==> result1 != nil && e_SetMaster == old(e_SetMaster)
+//@   ensures C09.ensure_ok [C09,C10]: result1 == nil ==> cntAliveMasters(clusterState, dom(clusterState)) == 1 && has(clusterState, result0) && aliveMaster(clusterState, result0) && d_master == result0 && e_SetMaster == old(e_SetMaster) + 1
+//@   ensures C09.ensure_many [C09,C10]: cntAliveMasters(clusterState, dom(clusterState)) > 1 ==> result1 != nil && errIs(result1, ErrManyMasters) && e_SetMaster == old(e_SetMaster)
+//@   ensures C09.ensure_none [C09,C10]: cntAliveMasters(clusterState, dom(clusterState)) == 0 ==> result1 != nil && e_SetMaster == old(e_SetMaster)
 //@   ensures C09.ensure_frame [C09]: touched == old(touched) && e_SetActive == old(e_SetActive) && e_SetMaster <= old(e_SetMaster) + 1
 
 //@ func (*app.App).getCurrentMaster
 //@   requires vals_nonnil [safety]: forall k string :: has(clusterState, k) ==> clusterState[k] != nil
 //@   ensures C09.current_frame [C09,C10]: touched == old(touched) && e_SetActive == old(e_SetActive) && e_SetMaster <= old(e_SetMaster) + 1
-//@   ensures C09.current_write [C09]: e_SetMaster > old(e_SetMaster) ==> result1 != nil || (cntAliveMasters(clusterState, dom(clusterState)) == 1 && aliveMaster(clusterState, result0) && d_master == result0)
+//@   ensures C09.current_write [C09,C10]: e_SetMaster > old(e_SetMaster) ==> result1 != nil || (cntAliveMasters(clusterState, dom(clusterState)) == 1 && aliveMaster(clusterState, result0) && d_master == result0)
 
 //@ func (*app.App).enterMaintenance
 //@   requires nonnil [safety]: maintenance != nil
@@ -1032,6 +1032,7 @@ package app
 // ---- the observation function: which answer of the server ends up in which field of the collected state -----------------
 //@ func (*app.App).getNodeState
 //@   ensures obs.cascade [C16]: result.IsCascade == resultof("IsCascadeHost", 1)
+//@   ensures obs.ping_recheck [C05,C04,C10]: reached("Ping", 1) ==> result.PingOk == resultof("Ping", 1, 0)
 //@ func (*app.App).getNodeState$1
 //@   requires c20 [safety]: nodeState != nil && node != nil
 //@   requires blank: nodeState != nil ==> nodeState.SlaveState == nil && nodeState.MasterState == nil && nodeState.SemiSyncState == nil && !nodeState.IsMaster
